@@ -1,6 +1,7 @@
 (* C18 model-side runner: same case lines as harness/src/bin/impl_c18.rs.
    Prints "<model result> | <spec-oracle result>"; the oracle column comes from
-   the executable RFC grammar of Spec/RdataFormatS.v (spec_valid / spec_read). *)
+   the executable RFC grammar of Spec/RdataFormatS.v (spec_valid / spec_read) and, for
+   op c, the executable split of Spec/RdataCompS.v (spec_components). *)
 open Qvutil
 
 let name_err_name (e : NameWire.name_err) = match e with
@@ -27,6 +28,11 @@ let show_comp (c : RdataM.component) = match c with
   | RdataM.CName (false, nm) -> "U:" ^ hex nm.NameWire.n_wire
   | RdataM.COther b -> "O:" ^ hex b
 
+let show_piece (p : RdataCompS.piece) = match p with
+  | RdataCompS.PName (true, w) -> "C:" ^ hex w
+  | RdataCompS.PName (false, w) -> "U:" ^ hex w
+  | RdataCompS.POctets b -> "O:" ^ hex b
+
 let () = run_lines (fun f ->
   match f with
   | op :: cl :: ty :: hx :: rest ->
@@ -44,6 +50,9 @@ let () = run_lines (fun f ->
         | None -> "reject")
      | "c", [] ->
        show_res (fun cs -> " " ^ (if cs = [] then "-" else String.concat "," (Stdlib.List.map show_comp cs)))
-         (RdataM.components c t buf) ^ " | -"
+         (RdataM.components c t buf) ^ " | " ^
+       (match RdataCompS.spec_components c t buf with
+        | Some ps -> "ok " ^ (if ps = [] then "-" else String.concat "," (Stdlib.List.map show_piece ps))
+        | None -> "reject")
      | _ -> failwith "bad case line")
   | _ -> failwith "bad case line")
